@@ -158,6 +158,37 @@ func init() {
 	reg("Observe", func(e *Exec, fn *ssa.Function, args []Value, caller *Frame) (Value, *GoPanic) {
 		return nil, nil
 	})
+	reg("B2I", func(e *Exec, fn *ssa.Function, args []Value, caller *Frame) (Value, *GoPanic) {
+		return e.ctx.Ite(args[0].(*Term), e.ctx.Const(64, 1), e.ctx.Const(64, 0)), nil
+	})
+	boolFold := func(and bool) intrinsic {
+		return func(e *Exec, fn *ssa.Function, args []Value, caller *Frame) (Value, *GoPanic) {
+			acc := e.ctx.Bool(and)
+			s, ok := args[0].(SliceV)
+			if ok && s.base.obj != nil {
+				for i := 0; i < s.len; i++ {
+					t := e.sliceGet(s, i).(*Term)
+					if and {
+						acc = e.ctx.BAnd(acc, t)
+					} else {
+						acc = e.ctx.BOr(acc, t)
+					}
+				}
+			}
+			return acc, nil
+		}
+	}
+	reg("And", boolFold(true))
+	reg("Or", boolFold(false))
+	reg("Implies", func(e *Exec, fn *ssa.Function, args []Value, caller *Frame) (Value, *GoPanic) {
+		return e.ctx.BOr(e.ctx.BNot(args[0].(*Term)), args[1].(*Term)), nil
+	})
+	reg("IteInt", func(e *Exec, fn *ssa.Function, args []Value, caller *Frame) (Value, *GoPanic) {
+		return e.ctx.Ite(args[0].(*Term), args[1].(*Term), args[2].(*Term)), nil
+	})
+	reg("IteU8", func(e *Exec, fn *ssa.Function, args []Value, caller *Frame) (Value, *GoPanic) {
+		return e.ctx.Ite(args[0].(*Term), args[1].(*Term), args[2].(*Term)), nil
+	})
 	reg("F64", func(e *Exec, fn *ssa.Function, args []Value, caller *Frame) (Value, *GoPanic) {
 		if !e.arith {
 			e.unsupported("F64 input outside arithmetic mode")
